@@ -105,6 +105,8 @@ def evaluate(case):
     """Library value through the public route: JSON -> objects -> like()."""
     objs, dic = tt.load(phylo.likelihood_json(case))
     like = dic["like"]
+    if case.get("rescale"):
+        like.rescale = True  # the rescaled evaluation path, on trees small enough for exact marginalisation
     val = like()
     return like, dic, val
 
